@@ -49,16 +49,17 @@ class FlowGen(object):
         v = ("var", var or self.r.choice(VARS))
         return ("print", [("e", ("str", "m%d" % self.mid)), ("sep", ";"), ("e", v)], None)
 
-    def cond(self, calls=False):
+    def cond(self, calls=False, prefer=None):
         r = self.r
-        a = ("var", r.choice(VARS))
+        a = ("var", prefer or r.choice(VARS))
         c = ("bin", r.choice(["=", "<>", "<", ">", "<=", ">="]), a, n(r.randint(0, 4)))
         x = r.random()
-        if calls and r.random() < 0.3:
+        if calls and r.random() < (0.8 if prefer else 0.3):
             # two run-translated calls with different operands in one condition: each needs its own temporary (only in
             # a plain IF: IF..ELSE loses such calls altogether, the known mechanism of C01/C05/C08 pinned by test_int_lvalue)
             b = ("var", r.choice([v for v in VARS if v != a[1]]))
-            half = lambda e: ("fn", "INT", [("bin", "/", e, n(2))])                                  # noqa: E731
+            # (the operand is often negative with a fraction: INT rounds down there, -1.5 gives -2)
+            half = lambda e: ("fn", "INT", [("bin", "/", ("par", ("bin", "-", e, n(3))), n(2))])      # noqa: E731
             return ("bin", r.choice(["=", "<>", "<", ">"]), half(a), ("bin", "+", half(b), n(r.randint(0, 1))))
         if x < 0.15:
             c2 = ("bin", r.choice(["=", "<", ">"]), ("var", r.choice(VARS)), n(r.randint(0, 4)))
@@ -107,10 +108,13 @@ class FlowGen(object):
             return ("stmts", [("gosub", t)] if r.random() < 0.6 else [("gosub", t), self.mark()])
         st = self.simple()
         if depth < 2 and r.random() < 0.3:
-            st.append(self.if_stmt(depth + 1, need_else))
+            # (when the arm has just changed a variable, the nested condition reads that variable - through a
+            # run-translated call if it may: the call belongs behind the change, inside the arm)
+            changed = st[-1][1][1] if st[-1][0] == "let" else None
+            st.append(self.if_stmt(depth + 1, need_else, prefer=changed))
         return ("stmts", st)
 
-    def if_stmt(self, depth=0, need_else=False):
+    def if_stmt(self, depth=0, need_else=False, prefer=None):
         r = self.r
         x = r.random()
         has_else = need_else or x < 0.55
@@ -120,7 +124,7 @@ class FlowGen(object):
         els = self.arm_stmts(depth, need_else) if (has_else or (nel and r.random() < 0.5) or need_else) else None
         if nel and els is None:
             self.has_elif_noelse = True
-        return ("if", self.cond(calls=(els is None and not elifs)), then, elifs, els)
+        return ("if", self.cond(calls=(els is None and not elifs), prefer=prefer), then, elifs, els)
 
     def line(self, stmts):
         self.items.append(("line", stmts))
@@ -133,6 +137,18 @@ class FlowGen(object):
             if r.random() < 0.4:
                 st += self.simple()
             self.line(st)
+        elif x < 0.03 + 0.18:
+            # an ELSE IF chain whose last arm changes a variable and then tests it, through a run-translated call, in a
+            # plain IF of its own: that call belongs inside the arm, behind the change
+            v = r.choice(VARS)
+            inc = n(r.randint(1, 3))
+            nested = ("if", ("bin", r.choice(["=", "<>", ">"]), ("fn", "INT", [("bin", "/", ("var", v), n(2))]), n(r.randint(0, 3))),
+                      ("stmts", [self.mark()]), [], None)
+            body = ("stmts", [("let", ("var", v), ("bin", "+", ("var", v), inc), False), nested])
+            arms = [(self.cond(), ("stmts", [self.mark()])) for _ in range(r.randint(1, 2))]
+            # (always with a final ELSE: a chain without one is the known endless-LOOP finding, and its counterfactual - an
+            # added ELSE - would bind to the nested IF here)
+            self.line([("if", self.cond(), ("stmts", [self.mark()]), arms, body)])
         elif x < 0.36:
             st = [self.mark()] if r.random() < 0.5 else []
             st.append(self.if_stmt())
